@@ -438,8 +438,10 @@ def _tie_rmtv(st, man, rng, n):
     for name, stop in (('RmtvRun', None), ('RmtvStart', 0)):
         e = man[name]
         lines, exp, info = [], [], []
-        for k in range(n):
+        for k in range(3 * n):
             p = _rmtv_params(rng)
+            if k % 4 == 3:
+                p['xis'] = rng.uniform(1.05, 1.4)      # the branches with the integration end beyond xi = 1
             rs = p['rf'] / p['xif_in']
             p['rpos'] = [p['rf'] * 1.2, rs * rng.uniform(1.02, p['xif_in'] * 0.98), rs * rng.uniform(0.05, 0.98),
                          rs * 5e-5, rs, rs * rng.uniform(1.02, 1.5)][k % 6]
